@@ -205,7 +205,11 @@ func extractPrefix(err, cause error) (string, MessageType) {
 		if len(prefix) == 0 {
 			return "", Prefix
 		}
-		if strings.HasSuffix(prefix, ": ") {
+		// A prefix that consists of the separator only cannot be
+		// represented as a (necessarily empty) prefix: the receiver
+		// would drop the separator. Such a message is preserved in
+		// full below.
+		if len(prefix) > 2 && strings.HasSuffix(prefix, ": ") {
 			return prefix[:len(prefix)-2], Prefix
 		}
 	}
